@@ -6,14 +6,25 @@ import sys
 from harness import core
 
 
-def setup():
+def ensure_deps():
+    """jsonschema (the oracle validator) from the offline wheelhouse, once; every check calls this, so a check started on a
+    fresh tree without `vcheck setup` still finds it"""
     deps = os.path.join(core.BUILD, ".pydeps")
-    if not os.path.isdir(os.path.join(deps, "jsonschema")):
-        rc, out = core.sh(f"{core.PY} -m pip install -q --no-index --find-links /opt/veriftools/wheels "
-                          f"--target {deps} jsonschema", timeout=600)
-        print(out[-2000:])
-        if rc != 0:
-            return rc
+    os.makedirs(core.BUILD, exist_ok=True)
+    with core.Lock("pydeps"):
+        if not os.path.isdir(os.path.join(deps, "jsonschema")):
+            rc, out = core.sh(f"{core.PY} -m pip install -q --no-index --find-links /opt/veriftools/wheels "
+                              f"--target {deps} jsonschema", timeout=600)
+            if rc != 0:
+                print(out[-2000:])
+                return rc
+    return 0
+
+
+def setup():
+    rc = ensure_deps()
+    if rc != 0:
+        return rc
     ok, log, failed, terr = core.make()
     print(log[-3000:])
     if terr:
@@ -40,6 +51,9 @@ def main(argv):
         mod.replay(data)
         return 0
     pid = argv[0].upper()
+    if ensure_deps() != 0:
+        print("could not install jsonschema from /opt/veriftools/wheels")
+        return 2
     tier = None
     if "--tier" in argv:
         tier = argv[argv.index("--tier") + 1]
